@@ -3,9 +3,11 @@
 //! output line: F:<displayed>|V:<bits hex of the value the real parser/evaluator reads back
 //!              from the displayed text with the separator removed | E:<error kind>>
 //!              P:<panic message>   if formatting panicked
+//!   followed by |Q:<a>;<b>;<c> — the same f64 displayed the way results are displayed (InterpreterResult::to_markup
+//!   with the same FormatOptions, plain text): <a> as a scalar, <b> as `x m`, <c> as `x km/h`
 use numbat::module_importer::BuiltinModuleImporter;
 use numbat::resolver::CodeSource;
-use numbat::{Context, InterpreterResult};
+use numbat::{Context, FormatOptions, InterpreterResult};
 use std::io::{self, BufRead, Write};
 use std::panic::{catch_unwind, AssertUnwindSafe};
 
@@ -45,8 +47,36 @@ pub fn read_back(ctx: &mut Context, text: &str) -> String {
     r.unwrap_or_else(|e| format!("E:panic {}", panic_message(&e)))
 }
 
+/// the f64 as Numbat source that evaluates to exactly that value
+fn literal(x: f64) -> String {
+    if x.is_nan() {
+        "NaN".into()
+    } else if x.is_infinite() {
+        if x > 0.0 { "inf".into() } else { "(-inf)".into() }
+    } else if x < 0.0 || (x == 0.0 && x.is_sign_negative()) {
+        format!("(-{:e})", -x)
+    } else {
+        format!("{:e}", x)
+    }
+}
+
+fn display_result(ctx: &mut Context, src: &str, options: &FormatOptions) -> String {
+    let r = catch_unwind(AssertUnwindSafe(|| {
+        let c = &mut *ctx;
+        match c.interpret(src, CodeSource::Internal) {
+            Ok((statements, result)) => {
+                let m = result.to_markup(statements.last(), c.dimension_registry(), false, false, options);
+                numbat::markup::plain_text_format(&m, false).trim().replace('\n', " ")
+            }
+            Err(e) => format!("@error {e}").replace('\n', " "),
+        }
+    }));
+    r.unwrap_or_else(|e| format!("@panic {}", panic_message(&e))).replace(';', ",").replace('|', "/")
+}
+
 pub fn main() {
     let mut ctx = Context::new(BuiltinModuleImporter::default());
+    let _ = ctx.interpret("use prelude", CodeSource::Internal);
     
     let stdin = io::stdin();
     let stdout = io::stdout();
@@ -74,7 +104,20 @@ pub fn main() {
                     text.replace(&sep, "")
                 };
                 let rb = read_back(&mut ctx, &stripped);
-                writeln!(w, "F:{text}|{rb}").unwrap();
+                let options = FormatOptions {
+                    digit_separator: sep.clone(),
+                    digit_grouping_threshold: thr,
+                    significant_digits: sig,
+                    ..FormatOptions::default()
+                };
+                let lit = literal(f64::from_bits(bits));
+                let q = [
+                    display_result(&mut ctx, &lit, &options),
+                    display_result(&mut ctx, &format!("{lit} m"), &options),
+                    display_result(&mut ctx, &format!("{lit} km/h"), &options),
+                ]
+                .join(";");
+                writeln!(w, "F:{text}|{rb}|Q:{q}").unwrap();
             }
         }
     }
